@@ -8,7 +8,7 @@ whitespace-separated tokens) links it to "the loaded expression tree has an `and
 """
 import sys, os
 sys.path.insert(0, os.path.dirname(os.path.dirname(os.path.abspath(__file__))))
-import ast
+import ast, copy
 import z3
 from pyvc import xreal as xr
 from pyvc.numexec import Num, Bool, Unsupported, ANALYSIS
@@ -202,6 +202,32 @@ def verify_raise_sites(run):
         for node in ast.walk(fn):
             for ch in ast.iter_child_nodes(node):
                 parents[ch] = node
+        # locals that are plain aliases of an attribute chain (`defuzzifier = self.defuzzifier`, bound once): a guard written over the alias is the guard over the attribute
+        binds = {}
+        for node in ast.walk(fn):
+            if isinstance(node, (ast.Assign, ast.AnnAssign)):
+                tg = node.targets if isinstance(node, ast.Assign) else [node.target]
+                for t in tg:
+                    for nm in ast.walk(t):
+                        if isinstance(nm, ast.Name):
+                            binds.setdefault(nm.id, []).append(node.value if len(tg) == 1 and t is nm else None)
+            elif isinstance(node, (ast.For, ast.comprehension, ast.NamedExpr, ast.withitem, ast.AugAssign)):
+                t = getattr(node, "target", None) or getattr(node, "optional_vars", None)
+                for nm in ast.walk(t) if t is not None else []:
+                    if isinstance(nm, ast.Name):
+                        binds.setdefault(nm.id, []).append(None)
+        def chain(v):
+            while isinstance(v, ast.Attribute):
+                v = v.value
+            return isinstance(v, ast.Name)
+        alias = {k: v[0] for k, v in binds.items() if len(v) == 1 and v[0] is not None and isinstance(v[0], ast.Attribute) and chain(v[0])}
+
+        class _Sub(ast.NodeTransformer):
+            def visit_Name(s_, n):
+                return copy.deepcopy(alias[n.id]) if isinstance(n.ctx, ast.Load) and n.id in alias else n
+
+        def guard_text(t):
+            return ast.unparse(_Sub().visit(copy.deepcopy(t))) if alias else ast.unparse(t)
         for node in ast.walk(fn):
             if isinstance(node, ast.Raise):
                 exc = node.exc.func.id if isinstance(node.exc, ast.Call) and isinstance(node.exc.func, ast.Name) else ast.unparse(node.exc) if node.exc else "re-raise"
@@ -210,16 +236,23 @@ def verify_raise_sites(run):
                 while cur in parents:
                     par = parents[cur]
                     if isinstance(par, ast.If):
-                        guards.append(ast.unparse(par.test))
+                        guards.append(guard_text(par.test))
                     cur = par
                 ctx = " && ".join(guards) + " :: " + msg
                 hit = [e for e in EXCLUSIONS if e[0] == q and e[1] == exc and e[2] in ctx]
                 (matched if hit else unmatched).append(f"{q}:{node.lineno - fn.lineno} {exc} [{guards[0] if guards else 'unconditional'}]" + (f" <- {hit[0][3]}" if hit else ""))
     unused = [e for e in EXCLUSIONS if not any(x.startswith(e[0] + ":") and e[3] in x for x in matched)]
-    run.add(static("engine.Engine.process/raise_sites_excluded_when_ready", not unmatched and not missing_fn,
-                   (f"UNMATCHED raise sites: {unmatched}; missing functions: {missing_fn}" if unmatched or missing_fn else f"{len(matched)} raise sites in {len(PROCESS_TREE)} functions, each excluded: " + "; ".join(matched[:6]) + " ..."),
-                   fn="engine.Engine.process", meta={"replay": {"module": W_N, "func": "replay_ready", "kwargs": {}, "vars": {}}}))
-    run.add(static("engine.Engine.process/exclusion_table_current", not unused, f"table rows without a raise site in the source: {[u[:3] for u in unused]}" if unused else "every row of the exclusion table matches a raise site"))
+    rp = {"module": W_N, "func": "replay_ready", "kwargs": {}, "vars": {}}
+    if unmatched or missing_fn:
+        # a raise statement that no row of the table explains (a new check, a guard written in another way): whether readiness excludes it is NOT known - undecided, and a
+        # violation only if the directed native search (ready engines that cannot be processed) reproduces a failure
+        run.add(undecided("engine.Engine.process/raise_sites_excluded_when_ready", f"raise sites not explained by the exclusion table: {unmatched}; missing functions: {missing_fn}",
+                          fn="engine.Engine.process", meta={"replay": rp}))
+    else:
+        run.add(static("engine.Engine.process/raise_sites_excluded_when_ready", True, f"{len(matched)} raise sites in {len(PROCESS_TREE)} functions, each excluded: " + "; ".join(matched[:6]) + " ...",
+                       fn="engine.Engine.process", meta={"replay": rp}))
+    run.add(static("engine.Engine.process/exclusion_table_current", not unused, f"table rows without a raise site in the source: {[u[:3] for u in unused]}" if unused else "every row of the exclusion table matches a raise site",
+                   fn="engine.Engine.process", meta={"soft": True, "replay": rp}))
 
 
 def build(run):
